@@ -420,7 +420,29 @@ def work_sync_seq(chunk):
     return res
 
 
+def work_no_blocking(chunk):
+    from . import c19
+
+    res = common.Result()
+    for case in chunk:
+        cfg = Cfg.from_desc(case["cfg"])
+        pre = ["enter"] if cfg.version == "v3" else []
+        ev = c19.session_events("async", cfg, pre + ["get", "getnext", "get_many"], mode="delay")
+        res.count("schedules")
+        res.distinct()
+        res.outcome("async:no-blocking-sleep")
+        if "B" in ev:
+            res.violation("async/%s/blocking-sleep-in-event-loop" % cfg.version, "the async client took a rate-limit delay with the blocking sleep (events %r): every other session's time-out is frozen meanwhile" % ev, {"driver": "no-blocking", "cfg": case["cfg"]})
+    return res
+
+
 def replay(case):
+    if case.get("driver") == "no-blocking":
+        common.prepare_stage()
+        from . import c19
+
+        cfg = Cfg.from_desc(case["cfg"])
+        return {"events": c19.session_events("async", cfg, (["enter"] if cfg.version == "v3" else []) + ["get", "getnext", "get_many"], mode="delay")}
     common.prepare_stage()
     cfg = Cfg.from_desc(case["cfg"])
     if "calls" in case:
@@ -496,5 +518,8 @@ def run(tier):
     for c in (Cfg("v3", auth=1, discover=True), Cfg("v3", auth=2, priv=2, discover=True), Cfg("v3", auth=1)):
         qcases.append({"driver": "sync-seq", "cfg": c.describe(), "calls": [[[], None], [[], None]], "op": "enter"})
     common.run_cases(rec, work_sync_seq, qcases, chunk=2, nproc=8)
+    # nothing in the async client may block the event loop: while one session is being rate-limited, the timers of all
+    # others must keep running (a blocking sleep is invisible to virtual time, so it is observed directly)
+    common.run_cases(rec, work_no_blocking, [{"cfg": c.describe()} for c in (Cfg("v1"), Cfg("v2c"), Cfg("v3", auth=2, priv=2, discover=True))], chunk=1)
     n = rec.counters["schedules"]
     return rec.finish(evaluations=n, distinct_nontrivial=rec.distinct_n)
